@@ -14,7 +14,7 @@ META = {
     'functions': ['xrspatial.proximity.proximity', 'xrspatial.proximity.allocation', 'xrspatial.proximity.direction', 'xrspatial.proximity._process',
                   'xrspatial.proximity._process_proximity_line', 'xrspatial.proximity._calc_direction', 'xrspatial.proximity._distance'],
     'bounds': {'quick': 'rasters 3x3 (every one of the 2^9 target layouts, as solver-decided paths over symbolic cell values incl. NaN) for EUCLIDEAN (ascending and descending, '
-                        'non-square coordinates) and MANHATTAN, finite and infinite max_distance; 2x3 for GREAT_CIRCLE and for explicit symbolic target_values; int32 / uint8 rasters 2x3; NOT symbolic: 5x6 rasters with two concrete targets at every pair of positions (435 layouts; claims: never below the true nearest distance, value = distance to the target that allocation and direction name)',
+                        'non-square coordinates) and MANHATTAN, finite and infinite max_distance, max_distance 0 (float and int); 2x3 for GREAT_CIRCLE and for explicit symbolic target_values; int32 / uint8 rasters 2x3; NOT symbolic: 5x6 rasters with two concrete targets at every pair of positions (435 layouts; claims: never below the true nearest distance, value = distance to the target that allocation and direction name)',
                'thorough': 'plus 3x4 and 2x5 (4096 / 1024 layouts) and 4x4 single-target layouts'},
     'stubs': ['numba.jit = identity; the closure _process_numpy is re-created per call exactly as in production'],
     'outside': ['grids larger than the bound (where the 4-sweep heuristic is known to be inexact; there only "never underestimated, names a real target" is the property)',
@@ -42,6 +42,9 @@ def jobs(tier, seed):
     add('euclid-3x3-desc-nonsquare-inf', grid='desc-nonsquare')
     add('euclid-3x3-maxd1.5', maxd=1.5)
     add('euclid-3x3-desc-nonsquare-maxd1.1', grid='desc-nonsquare', maxd=1.1)
+    # max_distance exactly 0 (a legal bound, not "unbounded"): 0 on targets, NaN everywhere else
+    add('euclid-2x3-maxd0', shape=[2, 3], maxd=0.0)
+    add('manhattan-2x3-maxd0-int', shape=[2, 3], maxd=0, metric='MANHATTAN', grid='desc-nonsquare')
     add('manhattan-3x3-inf', metric='MANHATTAN')
     add('manhattan-3x3-maxd2', metric='MANHATTAN', maxd=2.0)
     add('greatcircle-2x3-inf', metric='GREAT_CIRCLE', grid='lonlat', shape=[2, 3])
